@@ -38,6 +38,8 @@ def run(ctx):
     ctx.assume += ["window elements of the density-based strategies are treated as immutable values",
                    "strategies that are 'classifier utility o manager' are covered by the dynamic purity oracle and by the manager model, not by a model of the classifier"]
     ctx.coq_props()
+    from ..density import density_correspondence
+    density_correspondence(ctx)
     nh = 14 if ctx.is_quick else 150
     recs = []
     for kind in S.ALL_KINDS:
